@@ -58,7 +58,7 @@ var c16Vars = []struct {
 }{{"ARGS", true}, {"ARGS_GET", true}, {"ARGS_NAMES", true}, {"REQUEST_HEADERS", true}, {"REQUEST_COOKIES", true}, {"TX", true}, {"FILES", true},
 	{"REQUEST_URI", false}, {"REQUEST_BODY", false}, {"REQUEST_METHOD", false}, {"RESPONSE_STATUS", false}, {"QUERY_STRING", false}, {"RESPONSE_HEADERS", true}, {"GEO", true}, {"ENV", true}}
 
-var c16Keys = []string{"a", "User-Agent", "x_y", "a.b", "a:b", "a,b", "k=v", "a/b", "0", "é", "A-B.c:d,e", "%{tx.a}", "a\"b", "[0]"}
+var c16Keys = []string{"a", "User-Agent", "x_y", "a.b", "a:b", "a,b", "k=v", "a/b", "a/", "p/q/", "0", "é", "A-B.c:d,e", "%{tx.a}", "a\"b", "[0]"}
 var c16RxKeys = []string{"^a", "a|b", "x\\/y", "^(a|b)$", "a,b", "a:b", "it's", "[a-c]+", "\\d+", ".", "a\"b", "^json\\.\\d+\\.x$",
 	// upper-case letters: the same text means different compiled keys on case-sensitive (ARGS*) and case-insensitive collections
 	"^X-Tok", "[A-C]+x", "^Foo\\d", "^X-Tok"}
@@ -200,7 +200,7 @@ func genC16(t *rapid.T) *C16Case {
 	}
 	if rapid.IntRange(0, 2).Draw(t, "nearmiss") == 0 {
 		c.NearMiss = rapid.SampledFrom([]string{"del-quote", "dup-open-quote", "del-pipe", "dup-pipe", "dup-comma", "trailing-comma", "del-id-colon", "del-blank",
-			"del-pipe-after-regex", "del-action-quote"}).Draw(t, "misskind")
+			"del-pipe-after-regex", "del-action-quote", "del-regex-close-slash", "del-regex-close-slash"}).Draw(t, "misskind")
 		if c.NearMiss == "del-action-quote" && known("C16-unclosed-action-quote-warning") {
 			// known finding: an unclosed quote in the action list is a warning, not an error
 			statExcluded("C16-unclosed-action-quote-warning")
@@ -329,6 +329,9 @@ func joinTokens(toks []string, st *styler) string {
 		}
 		inActs := i >= 3 // between two actions: no blank is required
 		sep := " "
+		if !inActs && st != nil && st.next()%5 == 0 {
+			sep = "  " // more than one blank between the directive, its targets, the operator and the actions
+		}
 		if inActs {
 			sep = ""
 			if st != nil && st.next()%3 == 0 {
@@ -368,6 +371,14 @@ func (c *C16Case) renderAll(style *C16Style) (main string, files map[string]stri
 		}
 		if style != nil && style.LongComment && i == len(c.Rules)/2 {
 			sb.WriteString("# " + strings.Repeat("long comment ", 5400) + "\n")
+		}
+		if i == 1 {
+			// a marker between the first two rules: any number of blanks may separate a directive from its argument
+			blanks := " "
+			if st != nil {
+				blanks = strings.Repeat(" ", 1+int(st.next()%3))
+			}
+			sb.WriteString("SecMarker" + blanks + "C16_MARK\n")
 		}
 		text := r.render(st)
 		if style != nil && style.TrailingContinuation && i == len(c.Rules)-1 {
@@ -670,6 +681,17 @@ func (c *C16Case) nearMissText() (string, bool) {
 			return strings.Replace(first, tgs, prefix+tgs[len(prefix)+1:], 1) + rest, true
 		}
 		return "", false
+	case "del-regex-close-slash":
+		// the last target is a regex key: without its closing slash the expression never ends
+		last := r.Targets[len(r.Targets)-1]
+		if !last.Rx {
+			return "", false
+		}
+		tgs := renderTargets(r.Targets)
+		if !strings.HasSuffix(tgs, "/") || !strings.Contains(first, tgs+" ") {
+			return "", false
+		}
+		return strings.Replace(first, tgs+" ", tgs[:len(tgs)-1]+" ", 1) + rest, true
 	case "del-action-quote":
 		// the closing quote of a quoted action value that is followed by another action
 		i := strings.Index(first, "',")
@@ -705,8 +727,20 @@ func checkC16(c *C16Case) Result {
 		res.Fail = failf("the canonical rendering of a representable description was rejected: %v\n%s", err, canon)
 		return res
 	}
+	// the marker rendered between the first two rules is a rule of its own in the compiled list
+	allRules := rules
+	rules = nil
+	for i := range allRules {
+		if allRules[i].SecMark_ == "" {
+			rules = append(rules, allRules[i])
+		}
+	}
 	if len(rules) != len(c.Rules) {
 		res.Fail = failf("%d rules rendered, %d compiled\n%s", len(c.Rules), len(rules), canon)
+		return res
+	}
+	if len(c.Rules) >= 2 && (len(allRules) != len(rules)+1 || allRules[1].SecMark_ != "C16_MARK") {
+		res.Fail = failf("the marker C16_MARK written after the first rule is not the second compiled rule\n%s", canon)
 		return res
 	}
 	// (a) the compiled rules equal the description
@@ -730,7 +764,7 @@ func checkC16(c *C16Case) Result {
 			return res
 		}
 	}
-	base := deepDump(rules, c16Mask)
+	base := deepDump(allRules, c16Mask)
 	// (b) every equivalent rendering compiles to the same rules
 	for si := range c.Styles {
 		text, files := c.renderAll(&c.Styles[si])
